@@ -168,6 +168,35 @@ def watchdog(seconds):
     signal.alarm(seconds)
 
 
+def kill_descendants():
+    """SIGKILL every process descended from this one that is a multiprocessing worker: a broken pool may leave workers behind
+    (e.g. ones that ignore SIGTERM), and the interpreter would wait for them at exit"""
+    me = os.getpid()
+    kids = {}
+    for d in os.listdir("/proc"):
+        if d.isdigit():
+            try:
+                with open(f"/proc/{d}/stat") as f:
+                    parts = f.read().rsplit(")", 1)[1].split()
+                kids.setdefault(int(parts[1]), []).append(int(d))
+            except Exception:  # noqa: BLE001
+                pass
+    todo, seen = [me], set()
+    while todo:
+        for c in kids.get(todo.pop(), []):
+            if c not in seen:
+                seen.add(c)
+                todo.append(c)
+    for pid in seen:
+        try:
+            with open(f"/proc/{pid}/cmdline", "rb") as f:
+                cmd = f.read()
+            if b"multiprocessing" in cmd and b"resource_tracker" not in cmd:
+                os.kill(pid, signal.SIGKILL)
+        except Exception:  # noqa: BLE001
+            pass
+
+
 def isolated_pool_case(ctx, outcomes, workers, work, consume_in_body, show=False):
     """a pool scenario in a fresh interpreter with its own process group: a fault that wedges process-wide state (a lock
     that a killed worker never releases — semaphores are shared across fork) must not take the rest of the check with it"""
@@ -270,6 +299,8 @@ def pool_case(ctx, outcomes, workers, work, rng, delays=None, consume_in_body=Fa
     finally:
         signal.alarm(0)
     elapsed = time.time() - t0
+    if any(o in ("die", "dielock") for o in outcomes):
+        kill_descendants()
     got = verdict_of(exc)
     inp = {"outcomes": outcomes, "workers": workers, "results_consumed_in_body": consume_in_body}
     bad = any(o != "ok" for o in outcomes)
@@ -442,6 +473,11 @@ def run(ctx):
                     o[pos] = "dielock"
                     for show in (False, True):
                         isolated_pool_case(ctx, o, w, work, body, show)
+        # a plain worker death with other workers alive: the driving process must not only raise, it must terminate
+        for w in ((2, 3, 4) if ctx.thorough else (3,)):
+            o = ["ok"] * 6
+            o[1] = "die"
+            isolated_pool_case(ctx, o, w, work, False)
         # an idle worker is killed between two bursts of submissions (slow producer)
         for w in ((1, 2, 4) if ctx.thorough else (2,)):
             isolated_pool_case(ctx, ["ok"] * (2 * w) + ["killidle"] + ["ok"] * 4, w, work, False)
@@ -451,6 +487,7 @@ def run(ctx):
         exit_steps_case(ctx)
         pipeline_cases(ctx, work, rng)
         ctx.traces = ctx.evaluations
+        kill_descendants()
     finally:
         shutil.rmtree(work, ignore_errors=True)
 
